@@ -41,6 +41,7 @@ func identDictU(rng *rand.Rand, nvals int, utf8Only bool) *vx.Dict {
 		pool = append(pool, "\xff")
 	}
 	vals := vx.PickSorted(rng, pool, nvals, func(i int) string { return fmt.Sprintf("v%03d", i) })
+	vals[0] = "" // the empty string is always a value (it is the smallest, so the order stays strict): col = "" must mean it
 	return vx.NewDict(cols, vals)
 }
 
